@@ -48,7 +48,6 @@ use datafusion_proto::protobuf;
 use proptest::prelude::*;
 use prost::Message;
 use serde::{Deserialize, Serialize};
-use std::collections::HashMap;
 use std::time::Duration;
 use vf_df::{ErrClass, Variant};
 use vf_kit::data::{self, ColumnSpec, DType, DTypeCfg, Encoding};
@@ -138,19 +137,101 @@ pub fn expr_depth(e: &Expr) -> usize {
     max
 }
 
-/// Round trip of one expression through the node + wire bytes. Ok(None) = encoding refused.
-fn expr_round_trip(e: &Expr, enc_codec: &dyn LogicalExtensionCodec, dec_ctx: &SessionContext, dec_codec: &dyn LogicalExtensionCodec) -> Result<Option<()>, String> {
+/// What the recorded lossy spots of the expression encoding do to an expression, with the findings involved:
+/// * `column-relation-unquoted` — `Column::relation` travels as its UNQUOTED text and is re-parsed;
+/// * `literal-metadata-dropped` — `Expr::Literal(_, Some(metadata))` is encoded without the metadata;
+/// * `alias-metadata-dropped` — `Alias::metadata` is encoded but not decoded;
+/// * `cast-metadata-dropped` — the metadata of a CAST / TRY_CAST target field is encoded but not decoded.
+fn lossy(e: &Expr) -> (Expr, Vec<&'static str>) {
+    use datafusion::common::tree_node::Transformed;
+    use datafusion::common::{Column, TableReference};
+    use datafusion::logical_expr::expr::{Cast, TryCast};
+    let mut tags: Vec<&'static str> = vec![];
+    let out = e
+        .clone()
+        .transform_up(|x| {
+            Ok(match x {
+                Expr::Column(c) if c.relation.is_some() => {
+                    let r = c.relation.as_ref().map(|r| TableReference::parse_str_normalized(&r.to_string(), true));
+                    if r != c.relation {
+                        tags.push("column-relation-unquoted");
+                        Transformed::yes(Expr::Column(Column::new(r, c.name)))
+                    } else {
+                        Transformed::no(Expr::Column(c))
+                    }
+                }
+                Expr::Literal(v, Some(_)) => {
+                    tags.push("literal-metadata-dropped");
+                    Transformed::yes(Expr::Literal(v, None))
+                }
+                Expr::Alias(a) if a.metadata.is_some() => {
+                    tags.push("alias-metadata-dropped");
+                    Transformed::yes(Expr::Alias(a.with_metadata(None)))
+                }
+                Expr::Cast(c) if !c.field.metadata().is_empty() => {
+                    tags.push("cast-metadata-dropped");
+                    let f = c.field.as_ref().clone().with_metadata(Default::default());
+                    Transformed::yes(Expr::Cast(Cast::new_from_field(c.expr, std::sync::Arc::new(f))))
+                }
+                Expr::TryCast(c) if !c.field.metadata().is_empty() => {
+                    tags.push("cast-metadata-dropped");
+                    let f = c.field.as_ref().clone().with_metadata(Default::default());
+                    Transformed::yes(Expr::TryCast(TryCast::new_from_field(c.expr, std::sync::Arc::new(f))))
+                }
+                o => Transformed::no(o),
+            })
+        })
+        .map(|t| t.data)
+        .unwrap_or_else(|_| e.clone());
+    tags.sort();
+    tags.dedup();
+    (out, tags)
+}
+
+pub enum ExprRt {
+    Refused,
+    Same,
+    /// differs exactly by the recorded findings named
+    Known(Vec<&'static str>),
+}
+
+/// recorded findings that make a successfully encoded expression undecodable
+fn decode_failure_tag(msg: &str) -> Option<&'static str> {
+    if msg.contains("Unsupported binary operator") {
+        Some("binary-operator-not-decodable")
+    } else if msg.contains("Invalid length for escape char") {
+        Some("like-escape-char-non-ascii")
+    } else {
+        None
+    }
+}
+
+/// Round trip of one expression through the node + wire bytes.
+fn expr_round_trip(e: &Expr, enc_codec: &dyn LogicalExtensionCodec, dec_ctx: &SessionContext, dec_codec: &dyn LogicalExtensionCodec) -> Result<ExprRt, String> {
     let node = match serialize_expr(e, enc_codec) {
         Ok(n) => n,
-        Err(_) => return Ok(None),
+        Err(_) => return Ok(ExprRt::Refused),
     };
     let bytes = node.encode_to_vec();
-    let node2 = protobuf::LogicalExprNode::decode(bytes.as_slice()).map_err(|er| format!("expression `{e}`: encoded bytes do not decode: {er}"))?;
-    let back = parse_expr(&node2, &dec_ctx.task_ctx(), dec_codec).map_err(|er| format!("expression `{e}` encodes but does not decode: {er}"))?;
+    let node2 = protobuf::LogicalExprNode::decode(bytes.as_slice()).map_err(|er| format!("expression encoded bytes do not decode: {er}; expression `{e}`"))?;
+    let back = match parse_expr(&node2, &dec_ctx.task_ctx(), dec_codec) {
+        Ok(b) => b,
+        Err(er) => {
+            let m = er.to_string();
+            if let Some(t) = decode_failure_tag(&m) {
+                return Ok(ExprRt::Known(vec![t]));
+            }
+            return Err(format!("expression encodes but does not decode: {}\n  expression: `{e}`", truncate(&m, 600)));
+        }
+    };
     if &back != e {
+        let (l, tags) = lossy(e);
+        if back == l && !tags.is_empty() {
+            return Ok(ExprRt::Known(tags));
+        }
         return Err(format!("expression decodes to a different expression\n  original: {e}\n  decoded:  {back}\n  original (debug): {}\n  decoded  (debug): {}", truncate(&format!("{e:?}"), 1500), truncate(&format!("{back:?}"), 1500)));
     }
-    Ok(Some(()))
+    Ok(ExprRt::Same)
 }
 
 async fn run_plan_async(pc: &PlanCase, fx: &Fixture) -> CaseResult {
@@ -170,11 +251,15 @@ async fn run_plan_async(pc: &PlanCase, fx: &Fixture) -> CaseResult {
             Err(e) => return CaseResult::discard(format!("optimizer: {:?}", err_class(&e))),
         };
     }
+    if !table_function_scans(&plan, &fx.tables).is_empty() {
+        return CaseResult::discard("plan scans a table function (no provider codec for it)");
+    }
     let original = match exec_logical(&a.ctx, &plan).await {
         Ok(x) => x,
         Err(e) => return CaseResult::discard(format!("original plan fails to run: {:?}", err_class(&e))),
     };
     let kinds = logical_kinds(&plan);
+    let mut known: Vec<&'static str> = vec![];
     let mut labels: Vec<String> = kinds.iter().map(|k| format!("node:{k}")).collect();
     labels.push(fx.source.label().into());
     labels.push(if pc.optimized { "plan:optimized".into() } else { "plan:analyzed".into() });
@@ -206,7 +291,11 @@ async fn run_plan_async(pc: &PlanCase, fx: &Fixture) -> CaseResult {
     let t0 = plan.display_indent_schema().to_string();
     let t1 = back.display_indent_schema().to_string();
     if t0 != t1 {
-        return CaseResult::violation(format!("decoded plan differs in its textual form{}\n  decoded plan:\n{t1}", ctxt())).labels(labels);
+        if flatten_unions(&t0) == flatten_unions(&t1) {
+            known.push("union-nary-decoded-nested");
+        } else {
+            return CaseResult::violation(format!("decoded plan differs in its textual form: {}{}\n  decoded plan:\n{t1}", first_diff(&t0, &t1), ctxt())).labels(labels);
+        }
     }
     // expressions of the plan, one by one
     let default_codec = DefaultLogicalExtensionCodec {};
@@ -215,11 +304,12 @@ async fn run_plan_async(pc: &PlanCase, fx: &Fixture) -> CaseResult {
     let mut max_depth = 0;
     for e in plan_exprs(&plan) {
         match expr_round_trip(&e, enc_c, &b.ctx, dec_c) {
-            Ok(Some(())) => {
+            Ok(ExprRt::Same) => {
                 n_exprs += 1;
                 max_depth = max_depth.max(expr_depth(&e));
             }
-            Ok(None) => labels.push("plan-expr-encode-refused".into()),
+            Ok(ExprRt::Known(k)) => known.extend(k),
+            Ok(ExprRt::Refused) => labels.push("plan-expr-encode-refused".into()),
             Err(m) => return CaseResult::violation(format!("{m}{}", ctxt())).labels(labels),
         }
     }
@@ -241,6 +331,9 @@ async fn run_plan_async(pc: &PlanCase, fx: &Fixture) -> CaseResult {
     }
     if original.rows.is_empty() {
         labels.push("empty-result".into());
+    }
+    if !known.is_empty() {
+        return known_violation(&known, format!("the round trip differs only by recorded findings{}\n  decoded plan:\n{t1}", ctxt())).labels(labels);
     }
     CaseResult::pass().nontrivial(kinds.len() >= 3).labels(labels)
 }
@@ -277,18 +370,26 @@ fn run_expr(spec: &ESpec) -> CaseResult {
     let mut labels = exprgen::labels(spec);
     let codec = DefaultLogicalExtensionCodec {};
     let fresh = SessionContext::new();
+    let mut known: Vec<&'static str> = vec![];
     match expr_round_trip(&e, &codec, &fresh, &codec) {
-        Ok(None) => return CaseResult::discard("encode refused").labels(labels),
-        Ok(Some(())) => {}
+        Ok(ExprRt::Refused) => return CaseResult::discard("encode refused").labels(labels),
+        Ok(ExprRt::Same) => {}
+        Ok(ExprRt::Known(k)) => known.extend(k),
         Err(m) => return CaseResult::violation(m).labels(labels),
     }
+    let (lossy_e, _) = lossy(&e);
+    let undecodable = known.iter().any(|k| *k == "binary-operator-not-decodable" || *k == "like-escape-char-non-ascii");
+    let has_known = !known.is_empty();
+    let accept = |back: &Expr| *back == e || (has_known && *back == lossy_e);
+    let nan_literal = e.exists(|x| Ok(matches!(x, Expr::Literal(ScalarValue::Float32(Some(v)), _) if !v.is_finite()) || matches!(x, Expr::Literal(ScalarValue::Float64(Some(v)), _) if !v.is_finite()))).unwrap_or(false);
     // the bytes helpers
     match e.to_bytes() {
         Err(_) => labels.push("to_bytes-refused".into()),
         Ok(bytes) => match Expr::from_bytes_with_ctx(&bytes, &fresh.task_ctx()) {
-            Err(er) => return CaseResult::violation(format!("Expr::to_bytes succeeds, from_bytes_with_ctx fails for `{e}`: {}", err_text(&er))).labels(labels),
+            Err(_) if undecodable => {}
+            Err(er) => return CaseResult::violation(format!("Expr::to_bytes succeeds, from_bytes_with_ctx fails: {}\n  expression: `{e}`", err_text(&er))).labels(labels),
             Ok(back) => {
-                if back != e {
+                if !accept(&back) {
                     return CaseResult::violation(format!("Expr::to_bytes/from_bytes_with_ctx changes the expression\n  original: {e}\n  decoded:  {back}")).labels(labels);
                 }
             }
@@ -304,15 +405,23 @@ fn run_expr(spec: &ESpec) -> CaseResult {
                     Err(er) => return CaseResult::violation(format!("JSON form of the expression node does not parse back: {er}\n  expr: {e}\n  json: {}", truncate(&js, 1500))).labels(labels),
                 };
                 match parse_expr(&node2, &fresh.task_ctx(), &codec) {
-                    Err(er) => return CaseResult::violation(format!("expression `{e}` does not decode from its JSON form: {er}")).labels(labels),
+                    Err(_) if undecodable => {}
+                    Err(er) if nan_literal && er.to_string().contains("Missing required field") => {
+                        known.push("json-nonfinite-float");
+                        let _ = er;
+                    }
+                    Err(er) => return CaseResult::violation(format!("expression does not decode from its JSON form: {er}\n  expression: `{e}`")).labels(labels),
                     Ok(back) => {
-                        if back != e {
+                        if !accept(&back) {
                             return CaseResult::violation(format!("JSON round trip changes the expression\n  original: {e}\n  decoded:  {back}")).labels(labels);
                         }
                     }
                 }
             }
         }
+    }
+    if !known.is_empty() {
+        return known_violation(&known, format!("expression round trip differs only by recorded findings: `{e}`")).labels(labels);
     }
     let depth = expr_depth(&e);
     CaseResult::pass().nontrivial(depth >= 3).labels(labels)
@@ -344,6 +453,16 @@ fn scalar_same(a: &ScalarValue, b: &ScalarValue) -> Result<&'static str, String>
                 Err(format!("value changes: {a:?} → {b:?}"))
             }
         }
+    }
+}
+
+fn nonfinite_float(v: &data::Value) -> bool {
+    match v {
+        data::Value::Float(f) => !f.is_finite(),
+        data::Value::List(vs) | data::Value::Struct(vs) => vs.iter().any(nonfinite_float),
+        data::Value::Map(kv) => kv.iter().any(|(k, v)| nonfinite_float(k) || nonfinite_float(v)),
+        data::Value::Union(_, b) => nonfinite_float(b),
+        _ => false,
     }
 }
 
@@ -383,8 +502,15 @@ fn run_scalar(sc: &ScalarCase) -> CaseResult {
     };
     match scalar_same(&sv, &back) {
         Ok(l) => labels.push(l.into()),
-        Err(m) => return CaseResult::violation(format!("scalar round trip (binary): {m}")).labels(labels),
+        Err(m) => {
+            let (t0, t1) = (sv.data_type().to_string(), back.data_type().to_string());
+            if t0 != t1 && t0.replace("Float16", "Float32") == t1 {
+                return known_violation(&["float16-scalar-as-float32"], format!("scalar round trip (binary): {m}")).labels(labels);
+            }
+            return CaseResult::violation(format!("scalar round trip (binary): {m}")).labels(labels);
+        }
     }
+    let nonfinite = nonfinite_float(&sc.value);
     // JSON
     match serde_json::to_string(&proto) {
         Err(_) => labels.push("json-refused".into()),
@@ -395,6 +521,7 @@ fn run_scalar(sc: &ScalarCase) -> CaseResult {
             };
             let back = match ScalarValue::try_from(&p3) {
                 Ok(s) => s,
+                Err(e) if nonfinite => return known_violation(&["json-nonfinite-float"], format!("scalar does not decode from its JSON form: {e}; scalar {}", describe())).labels(labels),
                 Err(e) => return CaseResult::violation(format!("scalar does not decode from its JSON form: {e}; scalar {}", describe())).labels(labels),
             };
             if let Err(m) = scalar_same(&sv, &back) {
@@ -421,6 +548,14 @@ fn run_scalar(sc: &ScalarCase) -> CaseResult {
     CaseResult::pass().nontrivial(sc.dtype.is_nested() || (!sv.is_null() && parameterised)).labels(labels)
 }
 
+fn run_inner(case: &Case) -> CaseResult {
+    match case {
+        Case::Plan(p) => run_plan(p).label("case:plan"),
+        Case::Expr(e) => run_expr(e).label("case:expr"),
+        Case::Scalar(s) => run_scalar(s).label("case:scalar"),
+    }
+}
+
 impl Property for C35 {
     type Case = Case;
     fn id(&self) -> &'static str {
@@ -438,7 +573,7 @@ impl Property for C35 {
         .boxed()
     }
     fn budget(&self, tier: Tier) -> Budget {
-        Budget::new(tier.pick(10_000, 600_000), tier.pick(8, 16)).min_nontrivial(tier.pick(1_000, 50_000)).case_timeout(120)
+        Budget::new(tier.pick(10_000, 600_000), tier.pick(8, 16)).min_nontrivial(tier.pick(1_000, 50_000)).case_timeout(120).shrink(600, 60)
     }
     fn rule(&self) -> String {
         "plan cases: refsql query (C01 grammar, deterministic) over 3 tables as MemTables (name codec) or Parquet/CSV listing tables (default codec), analyzed or optimized plan, binary or JSON wire; \
@@ -453,14 +588,10 @@ impl Property for C35 {
             "refsql::deterministic_on decides whether the original plan's rows are a function of the input".into(),
         ]
     }
+    fn known_signature(&self, case: &Case) -> Option<String> {
+        signature_of("C35", "c35", case, || run_inner(case))
+    }
     fn run(&self, case: &Case) -> CaseResult {
-        match case {
-            Case::Plan(p) => run_plan(p).label("case:plan"),
-            Case::Expr(e) => run_expr(e).label("case:expr"),
-            Case::Scalar(s) => run_scalar(s).label("case:scalar"),
-        }
+        finish("c35", case, cached("c35", case, || run_inner(case)))
     }
 }
-
-#[allow(dead_code)]
-fn _unused(_: HashMap<String, String>) {}
